@@ -368,3 +368,22 @@ def posonly_font(tmp):
         m["cmap"][0x20] = 6
         open(p, "wb").write(gfont.build_font(m))
     return p
+
+
+def emptysub_jobs(tmp, opts=0):
+    """A synthesised font with two Silf sub-tables of which the first - the one segments are shaped with - has no passes."""
+    from fontgen import gfont, gdl
+    p = os.path.join(tmp, "emptysub.ttf")
+    if not os.path.exists(p):
+        keep = dict(op="keep", cls=0, ref=0, adv=-1, user=-1, user2=-1, shift=-1, att=-1, attref=-1, sf=0, sv=0)
+        none = {"kind": "none", "item": 0, "val": 0, "f": 0}
+        prog = [{"kind": "sub", "rules": [{"pre": 0, "ctx": [1], "items": [dict(keep, op="glyph", cls=2)], "con": none, "ret": 0}]},
+                {"kind": "pos", "rules": [{"pre": 0, "ctx": [2], "items": [dict(keep, shift=40)], "con": none, "ret": 0}]}]
+        m = gdl.font_model(prog, [[2], [1]], [0, 500, 600, 450, 700], [0] * 5, 0)
+        m["empty_first"] = 1
+        open(p, "wb").write(gfont.build_font(m))
+    out = []
+    for k, t in enumerate(("a", "ab", "abca", "dcbabcd", "bb b")):
+        for d in range(8):
+            out.append({"font": p, "cps": [ord(c) for c in t], "dir": d, "opts": opts, "ppm": 12 if d % 2 else 0, "id": "emptysub:%d:d%d" % (k, d)})
+    return out
